@@ -10,7 +10,7 @@ CONSTANTS
   ImmChoices = {FALSE}
   BlockSize = 8192
   Pos <- MCPos
-  CoverKinds = {"PushBlobChunked", "Write", "Resume", "Commit", "Cancel", "UpSize", "DeleteBlob", "GetBlob", "PushBlob"}
+  CoverKinds = {"PushBlobChunked", "Write", "Resume", "Close", "Commit", "Cancel", "UpSize", "DeleteBlob", "GetBlob", "PushBlob"}
 CONSTRAINT BufBound
 VIEW CoverView
 CHECK_DEADLOCK FALSE
